@@ -132,11 +132,13 @@ def boolOf : Val → Option Bool
   | .nodes l => some (!l.isEmpty)
   | .bool b => some b
   | .num k => some (k != 0)
+  | .dec _ t => some (t != 0)
   | .err => none
 
 def predTruth (v : Val) (f : Focus) : Option Bool :=
   match v with
   | .num k => some (f.pos == k)
+  | .dec neg t => some (!neg && f.pos * 10 == t)   -- equal to the context position: only +p.0
   | v => boolOf v
 
 def selectBy : List Focus → List (Option Bool) → Option (List Nat)
@@ -206,6 +208,7 @@ def sem (m : Mode) (a : Arr) : Expr → Focus → Val
     | .nodes l => .num l.length
     | _ => .err
   | .num k, _ => .num k
+  | .lit neg t, _ => .dec neg t
   | .position, f => .num f.pos
   | .last, f => .num f.size
   | .cmp op l r, f =>
